@@ -69,6 +69,13 @@ def plain_invocation(r) -> bytes:
     ind = r.choice(INDICATORS)
     body = r.choice([b" -w hidden -enc AAAA", b" -foo bar", b" Get-Process", b" -Command \"a b\"", b" -c 'x'", b"",
                      b" -nop -c iex $env:x", b"^ -^n^o^p", b" (1+1)"])
+    if r.random() < 0.06:
+        # the opening quote / FOR clause may be arbitrarily far back (beyond any command-line length limit)
+        opener, closer = r.choice([(b'"', b'" tail'), (b"'", b"' tail"), (b"for /f %i in ('", b"') do x"), (b"'", b""), (b'"', b"')")])
+        filler = b" ".join(r.choice([b"lorem", b"ipsum", b"zq", b"rem", b"1234", b"--"]) for _ in range(r.choice([1200, 1700, 2400, 5000])))
+        filler = filler[: r.choice([8100, 8189, 8190, 8191, 8192, 8200, 9000, 20000])]
+        joiner = r.choice([b"; ", b" & ", b" /c ", b" x=", b" { ", b" cmd /k "])  # what makes the token an invocation
+        return r.choice([b"", b"x "]) + opener + filler + joiner + ind + body + closer
     return r.choice(PREFIXES) + ind + body + r.choice(SUFFIXES)
 
 
